@@ -283,6 +283,13 @@ Definition linear_loc_expected : list (string * string * string) := [
   ("COO.linear_loc", "", "linear_loc(self.coords, self.shape)")
 ].
 
+(* broadcast_to: sorted = "every two consecutive non-broadcast axes are next to each other" *)
+Definition broadcast_sorted_expected : list (string * string * string) := [
+  ("broadcast_to", "nonbroadcast_idx", "[idx for idx, p in enumerate(params) if p]");
+  ("broadcast_to", "diff_nonbroadcast_idx", "[a - b for a, b in zip(nonbroadcast_idx[1:], nonbroadcast_idx[:-1], strict=True)]");
+  ("broadcast_to", "sorted", "all((d == 1 for d in diff_nonbroadcast_idx))")
+].
+
 Fixpoint list_eqb3 (l1 l2 : list (string * string * string)) : bool :=
   match l1, l2 with
   | [], [] => true
@@ -302,6 +309,15 @@ Definition prune_by {V} (keep : V -> bool) (data : list V) : list V := filter ke
 
 (* IEEE `!=` on value tokens, with `nan` the token of NaN: NaN != anything, itself included *)
 Definition ieee_neq (nan : Z) (a b : Z) : bool := (a =? nan) || (b =? nan) || negb (a =? b).
+
+(* diff_nonbroadcast_idx of a list of axis numbers, and the two readings of the flag *)
+Fixpoint diffs (l : list Z) : list Z :=
+  match l with
+  | a :: ((b :: _) as r) => (b - a) :: diffs r
+  | _ => []
+  end.
+Definition all_diffs_one (l : list Z) : bool := forallb (fun d => d =? 1) (diffs l).   (* all(d == 1 ...) *)
+Definition any_diff_one (l : list Z) : bool := existsb (fun d => d =? 1) (diffs l).    (* any(d == 1 ...) *)
 
 (* `(np.diff(linear) >= 0).all()` evaluated in an UNSIGNED w-bit type (what the test would be if the key kept
    an unsigned coordinate dtype): differences wrap, so the test accepts everything *)
